@@ -340,6 +340,19 @@ impl<'a> El<'a> {
         let live = self.operands();
         let x = pick(i[1], &live);
         let d = self.dims(x);
+        if i[2] % 5 == 4 {
+            // nested construction from distinct same-shaped handles (they are consumed); keep at least one handle alive
+            let mut same: Vec<usize> = live.iter().copied().filter(|&h| h != x && self.dims(h) == d).collect();
+            same.truncate(1 + (i[3] as usize % 2));
+            if !same.is_empty() && live.len() > same.len() + 1 && d.len() < self.cfg.max_rank.max(3) {
+                let mut args = vec![x];
+                args.extend(same);
+                if i[4] & 1 == 1 {
+                    args.reverse();
+                }
+                return self.apply(OpKind::Stack(args.len()), args);
+            }
+        }
         if i[2] & 1 == 0 {
             self.apply(OpKind::Sum((i[4] as usize * (d.len() + 1)) >> 8), vec![x])
         } else {
